@@ -59,7 +59,10 @@ PROP_SENT = {
     "C11": ["at_backup"],
     "C05": ["conv_strided", "conv_morton", "conv_hilbert"],
     "C19": ["nd_map"],
+    "C17": None,      # filled below: get_configuration and the parameter-pack constructor of every layer
 }
+from harness import cxx2sent as _cs
+PROP_SENT["C17"] = list(_cs.CFG_KEYS)
 SENT = tuple(sorted({k for v in PROP_SENT.values() for k in v}))
 
 
